@@ -13,6 +13,9 @@ mod misc;
 
 use std::io::{BufRead, Write};
 
+#[global_allocator]
+static ALLOC: codec::Counting = codec::Counting;
+
 fn main() {
     let args: Vec<String> = std::env::args().collect();
     let cmd = args.get(1).map(String::as_str).unwrap_or("");
